@@ -1,4 +1,5 @@
 import collections.abc
+from enum import Enum
 from contextlib import suppress
 from dataclasses import dataclass
 from typing import Any, Callable, MutableMapping, NamedTuple, Optional, TypeVar, Union
@@ -84,6 +85,7 @@ def default_type_name(tp: AnyType) -> Optional[TypeName]:
             or not issubclass(tp, collections.abc.Collection)
             or is_named_tuple(tp)
             or is_typed_dict(tp)
+            or issubclass(tp, Enum)  # an Enum with a str mixin is a Collection
         )
     ):
         return TypeName(tp.__name__, tp.__name__)
